@@ -67,10 +67,19 @@ def sc_py(j):
 # 'txt' (not sent to the model) optionally pins the tag text used when rendering.
 # ----------------------------------------------------------------------------------------------
 
-SIMPLE_TAGS = {  # tag text -> kwargs (validated against the loader by gen_tables.py)
-    '!force': {'prio': 1}, '!weak': {'prio': -1}, '!del': {'del': True}, '!merge': {'del': False},
-    '!new': {'new': True}, '!notnew': {'new': False}, '!unsafe': {'safe': False},
-}
+def _probe_simple_tags():
+    """tag text -> constructor kwargs, read back from the real loader (also recorded in Gen/Tables.lean)"""
+    from awesomeyaml import yaml as _ayyaml
+    out = {}
+    for t in ['!force', '!weak', '!del', '!merge', '!new', '!notnew', '!unsafe']:
+        c = dict.__getitem__(list(_ayyaml.parse(f'x: {t} 5'))[0], 'x')
+        kw = {}
+        for name, attr in (('prio', '_priority'), ('del', '_delete'), ('new', '_allow_new'), ('safe', '_safe')):
+            if getattr(c, attr) is not None:
+                kw[name] = getattr(c, attr)
+        out[t] = kw
+    return out
+SIMPLE_TAGS = _probe_simple_tags()
 
 def S(v, tag=None, kw=None, txt=None):
     n = {'s': {'l': sc_json(v)}}
